@@ -200,7 +200,20 @@ func c15Run(c c15Case, root string, rec *vh.Recorder) error {
 	for _, op := range c.Ops {
 		switch op.Kind {
 		case "hostile":
-			k := tracedCall(op.Sys, ptrArg(op.Ptr), op.Dirfd, op.Flags)
+			sys := op.Sys
+			if strings.HasPrefix(op.Ptr, "proc-") {
+				// these names resolve to directories of the machine itself (/ through /proc/self/root, /proc): the ptrace
+				// runner does not change the root, the program is root there, and an allowed chmod with a generated mode
+				// succeeds - it changed the mode of / and of /proc for every other process. All other calls of the list fail on
+				// these directories; chmod is replaced by the access call of the same shape.
+				switch sys {
+				case "chmod":
+					sys = "access"
+				case "fchmodat":
+					sys = "faccessat"
+				}
+			}
+			k := tracedCall(sys, ptrArg(op.Ptr), op.Dirfd, op.Flags)
 			reached = append(reached, k)
 			classes = append(classes, "ptr="+op.Ptr)
 			if op.Ptr != "plain" {
